@@ -268,7 +268,7 @@ theorem unique_ids_invariant (orc : UriOracle) (kvs : List (String × Json)) (p 
       · subst a5
         simp only [a1, a2, a3, a4, if_false, if_true, false_or] at ha hv
         cases ha
-        cases hb : (Validator.requiredArray (some value) && Validator.servicesOK orc (objectEntries (some value))) with
+        cases hb : (Validator.requiredArray (some value) && Validator.allObjects value && Validator.servicesOK orc (objectEntries (some value))) with
         | false => simp [hb, Validator.ofBool] at hv
         | true =>
           simp only [Bool.and_eq_true] at hb
